@@ -226,6 +226,22 @@ reg(
   "Skip list: opt/stat compared member-wise, Option.tolerance against the documented clamp; exact after float32 rounding except re-factored qLD/qLDiagInv (1e-5).",
 )
 
+reg(
+  "C28",
+  "exhaustive enumeration of all 2^14 constraint graphs over 4 trees (batched worlds) plus property-based testing (Hypothesis) on clustered multi-tree models, against a union-find reference and MuJoCo's mj_island output",
+  "Every subset of 6 tree-pair, 4 tree-world and 4 self constraints (connect, weld, joint/tendon equality, plane contact, joint/tendon limit) of a 4-tree model for dense and sparse Jacobians, called directly and through "
+  "forward() with sleeping enabled; random models with 5-12 trees, contacts incl. static geoms/bodies and mocap, equalities of every kind and tendons spanning up to 3 trees: tree_island/nisland, per-island counts, "
+  "address prefix sums and the dof/efc maps (mutually inverse, per-island ranges, [equality|friction|other] layout).",
+  "Exhaustive only over the 4-tree switch model (2-12 variants); the graph is built from the rows MJWarp emitted (row assembly is C05's); worlds where a row's Jacobian is exactly zero on a tree it is attached to are skipped and counted; all trees awake.",
+)
+reg(
+  "C38",
+  "property-based metamorphic testing (Hypothesis): the sleep-enabled (compacted) solve against MJWarp's own full solve of the same state, with islands put to sleep per world and an nvmax sweep",
+  "Models with 3-8 trees in spatial clusters (contacts, equalities, limits, friction loss; Newton, both cones, dense/sparse) run with every tree awake (nvmax default/nv, and nvmax<nv on a non-sleep model) and with random "
+  "unions of islands asleep in 1-2 worlds: all-active runs reproduce qacc/efc.force/qfrc_constraint of the plain solve, sleeping trees get exactly zero qacc while awake trees match the decoupled plain solve, worlds whose awake dofs exceed nvmax set NVMAX; outputs are poisoned before each forward.",
+  "Reference is MJWarp's non-compacted solve (5e-4 all-active, 3e-2 awake sub-problems; worlds with reference residual > 2e-3 or ITERATIONS are skipped and counted); sleeping sets are written via tree_asleep cycles + update_sleep; Newton only.",
+)
+
 NOT_APPLICABLE = {}
 
 
